@@ -184,6 +184,21 @@ impl From<&PcapPacket> for Vec<u8> {
 }
 
 impl PcapPacket {
+    /// Verification hook: build a packet from header fields and raw bytes
+    #[cfg(feature = "verif_hooks")]
+    #[allow(dead_code)]
+    pub fn verif_new(ts_sec: u32, ts_usec: u32, caplen: u32, wirelen: u32, data: Vec<u8>) -> Self {
+        Self {
+            header: RefCell::new(PcapPacketHeader {
+                ts_sec,
+                ts_usec,
+                caplen,
+                wirelen,
+            }),
+            inner: RefCell::new(None),
+            rawdata: RefCell::new(Rc::new(data)),
+        }
+    }
     pub fn get_ts_sec(&self) -> Rc<Object> {
         Rc::new(Object::Integer(self.header.borrow().ts_sec as i64))
     }
